@@ -505,4 +505,63 @@ example : ((wrun { cached := false } (winit wtwo) [0, 0, 1, 0, 1, 1, 0, 1]).thre
 
 example : WFromSource { cached := false } := by unfold WFromSource; decide
 
+
+/-! ### class construction rebinds, it never mutates an inherited table -/
+
+open SqlglotModel.Threads.ClassTables
+
+/-- finite table fact, decided completely (ast of every metaclass `__new__`/`__init__` and every `__init_subclass__`
+    hook in sqlglot): each statement that updates a class attribute is a plain rebinding assignment; there is no
+    augmented assignment, no `.update/.add/.pop/.setdefault/.append/…` call and no item store / delete on the value of a
+    class attribute (other than on one the same hook has just rebound, and the `_classes` registry); the hooks of
+    `_Dialect` and `Tokenizer` were found and do rebind -/
+theorem metaclass_rebinds_never_mutates :
+    metaclassMutations = [] ∧ 0 < metaclassRebinds ∧ 2 ≤ metaclassHooks.length := by decide
+
+/-- the updates the model metaclass may perform, as the source performs them -/
+def UpdsFromSource (us : List Upd) : Prop := metaclassMutations = [] → ∀ u ∈ us, u.isRebind = true
+
+/-- FRAME PROPERTY: creating class `y` (the lazy first load of another dialect) with a metaclass that only rebinds
+    changes neither the binding of any attribute of any other class `x` nor the content of the object it is bound to —
+    for every store, every base, every list of updates. -/
+theorem rebinding_construction_frame (s : Store) (hw : WF s) (y b : Nat) (us : List Upd)
+    (hsrc : UpdsFromSource us) (x : Nat) (hx : x ≠ y) (a : Nat) :
+    (construct s y b us).bind x a = s.bind x a ∧
+    (construct s y b us).heap ((construct s y b us).bind x a) = s.heap (s.bind x a) := by
+  have hall := hsrc metaclass_rebinds_never_mutates.1
+  have hF : Frame s (construct s y b us) y := Frame.foldl us _ (Frame.inherit hw y b) hall
+  have h1 := hF.others x hx a
+  exact ⟨h1, by rw [h1]; exact hF.old _ (hw x a)⟩
+
+/-- … and the store stays well formed, so the property carries over to any sequence of later loads -/
+theorem rebinding_construction_wf (s : Store) (hw : WF s) (y b : Nat) (us : List Upd) (hsrc : UpdsFromSource us) :
+    WF (construct s y b us) :=
+  (Frame.foldl us _ (Frame.inherit hw y b) (hsrc metaclass_rebinds_never_mutates.1)).wf
+
+/-- loading any number of further classes one after the other leaves every table of an earlier class alone -/
+theorem rebinding_loads_frame (x a : Nat) : ∀ (loads : List (Nat × Nat × List Upd)) (s : Store), WF s →
+    (∀ l ∈ loads, l.1 ≠ x ∧ UpdsFromSource l.2.2) →
+    let s' := loads.foldl (fun st l => construct st l.1 l.2.1 l.2.2) s
+    s'.bind x a = s.bind x a ∧ s'.heap (s'.bind x a) = s.heap (s.bind x a)
+  | [], _, _, _ => ⟨rfl, rfl⟩
+  | l :: ls, s, hw, hall => by
+    have hl := hall l List.mem_cons_self
+    have h1 := rebinding_construction_frame s hw l.1 l.2.1 l.2.2 hl.2 x (fun e => hl.1 e.symm) a
+    have hw' := rebinding_construction_wf s hw l.1 l.2.1 l.2.2 hl.2
+    have ih := rebinding_loads_frame x a ls _ hw' (fun m hm => hall m (List.mem_cons_of_mem _ hm))
+    simp only [List.foldl_cons] at ih ⊢
+    exact ⟨ih.1.trans h1.1, ih.2.trans h1.2⟩
+
+/-- WHY: the seeded `klass.VALID_INTERVAL_UNITS |= {...}`: class 1 (postgres) inherits attribute 0 from the base class 0;
+    creating class 2 (tsql) with an in-place update of the inherited object adds tsql's units to postgres' table -/
+def ctStore : Store := { heap := fun o => if o = 0 then [1, 2] else [], bind := fun _ _ => 0, next := 1 }
+
+theorem inplace_update_leaks_into_other_classes :
+    (construct ctStore 2 0 [.mutate 0 [77]]).heap ((construct ctStore 2 0 [.mutate 0 [77]]).bind 1 0) = [1, 2, 77] ∧
+    (construct ctStore 2 0 [.rebind 0 [77]]).heap ((construct ctStore 2 0 [.rebind 0 [77]]).bind 1 0) = [1, 2] ∧
+    (construct ctStore 2 0 [.rebind 0 [77]]).heap ((construct ctStore 2 0 [.rebind 0 [77]]).bind 2 0) = [1, 2, 77] := by
+  decide +kernel
+
+example : WF ctStore := by intro c a; simp [ctStore]
+
 end SqlglotModel.Properties.C19
